@@ -88,6 +88,15 @@ def r_runmin(idx, rep, modules, rule="R-RUNMIN", floor=2):
                             return p
                         p = pm.get(p)
                     return None
+                # guards of one chain are alternatives that follow each other; a guard nested inside another guard of the same variable is a
+                # refinement of a case analysis (d00 <= d22 ... if d22 > d11), not the next candidate
+                nested = False
+                for g1 in guard_nodes:
+                    for g2 in guard_nodes:
+                        if g1 is not g2 and any(n_ is g2 for n_ in ast.walk(g1)):
+                            nested = True
+                if nested:
+                    continue
                 local_defs = [s_ for s_ in ast.walk(f.node) if isinstance(s_, ast.Assign) and any(isinstance(t, ast.Name) and t.id == best for t in s_.targets)]
                 adopts = [any(isinstance(s_, ast.Assign) for s_ in g.body) for g in guard_nodes]
                 if not local_defs or not all(adopts):
